@@ -3,6 +3,7 @@ package rules
 import (
 	"fmt"
 	"go/token"
+	"go/types"
 	"strings"
 
 	"golang.org/x/tools/go/ssa"
@@ -516,6 +517,45 @@ func c14(w *core.World, r *core.Report) {
 			}
 		}
 		r.Check(bad == "", "FRESH-MESSAGE", core.Site(h, "sent slices are not reused"), w.Pos(h.Pos()), "a slice that is part of a sent message is truncated and refilled: "+bad)
+	}
+
+	// ---- READ-EXACT
+	r.Rule("READ-EXACT", 3, "cache contract (sdcio/cache v0.0.35 matches a requested path as a plain key prefix in the config and state stores: interface,eth1 also matches interface,eth10 - reproduced): both cache clients (localCache.ReadCh, remoteCache.ReadCh) hand an entry on only on the true outcome of belowAnyPath(entry path, requested paths), and belowAnyPath accepts equality or the prefix '<joined path> + delimiter' only (see NO-PREFIX-ON-JOIN).")
+	for _, recv := range []string{"localCache", "remoteCache"} {
+		f := w.Func("pkg/cache", recv, "ReadCh")
+		if f == nil {
+			continue
+		}
+		n := 0
+		for _, g := range append([]*ssa.Function{f}, f.AnonFuncs...) {
+			for _, b := range g.Blocks {
+				for _, in := range b.Instrs {
+					var at ssa.Instruction
+					switch x := in.(type) {
+					case *ssa.Send:
+						at = x
+					case *ssa.Select:
+						for _, st := range x.States {
+							if st.Dir == types.SendOnly {
+								at = x
+							}
+						}
+					}
+					if at == nil {
+						continue
+					}
+					n++
+					r.Check(core.GuardedByBoolCall(at, true, "cache.belowAnyPath"), "READ-EXACT", core.Site(g, "entry filtered before it is handed on"), w.InstrPos(at), "entries the cache delivers because their key merely starts with the requested key must be dropped")
+				}
+			}
+		}
+		if n == 0 {
+			r.Undecided("READ-EXACT", core.Site(f, "send"), w.Pos(f.Pos()), "no send of read entries found")
+		}
+	}
+	if bp := w.Func("pkg/cache", "", "belowAnyPath"); bp != nil {
+		sl := core.ReturnSlice(bp, -1)
+		r.Check(sl.HasCallTo("strings.HasPrefix") && sl.HasCallTo("strings.Join"), "READ-EXACT", core.Site(bp, "compares whole elements"), w.Pos(bp.Pos()), "the filter decides on the joined paths with a delimiter-terminated prefix")
 	}
 
 	// ---- ENCODING-REJECT
